@@ -1,6 +1,26 @@
 (* RF.v — Robinson-Foulds distance, weighted RF / Kuhner-Felsenstein radicand, the combined comparison
-   report: the functions of Queries.v against counts of splits (C06, C07). *)
-From Coq Require Import List Arith NArith Lia Bool Permutation.
+   report: the functions of Queries.v against counts of splits (C06, C07).  Builds on Splits.v.
+
+   A  counting with lists of bitsets (diff_count, inter_count, rf_arith)
+   B  the state after get_partitions (pm, TC), root_parts
+   C  robinson_foulds: rf_unfold, rf_refines, rf_leafset_mismatch, rf_unrooted, rf_sym,
+      rf_same_sets, rf_self, rf_reorder, rf_unary, rf_reroot, rf_norm_value
+   D  get_partitions_with_lengths, compare_topologies: gpwl_fresh, wrf_unfold,
+      compare_topologies_unfold, rf_report, report_agrees
+   E  what the partition map stores: pm_get, split_len_sum, split_len_all_present, split_len_missing,
+      all_lens_iff
+   F  wrf_sum: wrf_sum_terms, wrf_sum_keys, wrf_sum_union, wrf_sum_sym, wrf_sum_self
+   G  weighted RF / KF on trees: wrf_refines, wrf_refines_sum, wrf_value, kf_refines, wrf_sym, wrf_missing,
+      report_weighted, wrf_self
+   H  the root correction by leaf sets: root2_same_split, same_root_two, rf_rooted
+   I  the split count on rsplits modulo same_split: rf_split_spec, only_in_spec, only_in_unique
+   J  renaming of taxa: rf_value_rename, rf_rename
+   K  common rescaling: wrf_sum_scale, wrf_scale, rf_scale
+   L  arena-level child reordering: rf_reorder_arena, wrf_reorder_arena
+   N  inducing nodes at the rose-tree level: inducing_spec, unary_same_split, root2_inducing
+   M  a concrete instance over Z (module RFExample)
+   Algebraic facts about branch lengths are explicit hypotheses of the theorems that need them. *)
+From Coq Require Import List Arith NArith Lia Bool Permutation Sorted.
 From PT Require Import Arena Spec Queries RepLib Splits Stats.
 Import ListNotations.
 
@@ -1437,6 +1457,27 @@ Proof.
     apply ssb_spec, ssb_c in Hss. rewrite Hss. apply in_map. auto.
 Qed.
 
+(* ... and any other system of representatives has the same size: the count is canonical *)
+Theorem only_in_unique (A B D : list (list str)) :
+  (forall S, In S D -> In S A /\ forall S', In S' B -> ~ same_split X S S') ->
+  (forall S, In S A -> (forall S', In S' B -> ~ same_split X S S') -> exists S0, In S0 D /\ same_split X S S0) ->
+  ForallOrdPairs (fun S S' => ~ same_split X S S') D ->
+  length D = count_only X A B.
+Proof.
+  intros D1 D2 D3. destruct (only_in_spec A B) as (O1 & O2 & O3).
+  assert (Hnd : forall D0, ForallOrdPairs (fun S S' => ~ same_split X S S') D0 -> NoDup (map c D0)).
+  { induction 1 as [|S D0 HS HF IH]; simpl; constructor; auto.
+    intros Hin. apply in_map_iff in Hin as (S' & E' & HS'). rewrite Forall_forall in HS.
+    apply (HS S' HS'). apply ssb_spec, ssb_c. auto. }
+  unfold count_only. rewrite <- (map_length c D), <- (map_length c (only_in X A B)).
+  apply Permutation_length. apply NoDup_Permutation; auto.
+  intros b. rewrite !in_map_iff. split; intros (S & <- & HS).
+  - destruct (D1 S HS) as [HA Hno]. destruct (O2 S HA Hno) as (S0 & HS0 & Hss).
+    exists S0. split; auto. symmetry. apply ssb_c, ssb_spec. auto.
+  - destruct (O1 S HS) as [HA Hno]. destruct (D2 S HA Hno) as (S0 & HS0 & Hss).
+    exists S0. split; auto. symmetry. apply ssb_c, ssb_spec. auto.
+Qed.
+
 (* the full statement for roots that are not both two-child *)
 Theorem rf_spec_unrooted :
   (length (rch r1) <> 2 \/ length (rch r2) <> 2) ->
@@ -1447,7 +1488,712 @@ Qed.
 
 End SpecCount.
 
+
+(* ================================================================================================ *)
+(* J. a consistent, injective renaming of the taxa of both trees leaves the distance unchanged       *)
+(* ================================================================================================ *)
+Lemma existsb_map {A B} (p : B -> bool) (g : A -> B) l : existsb p (map g l) = existsb (fun x => p (g x)) l.
+Proof. induction l as [|x l IH]; simpl; congruence. Qed.
+
+Lemma existsb_ext' {A} (p q : A -> bool) l : (forall x, p x = q x) -> existsb p l = existsb q l.
+Proof. intros H. induction l as [|x l IH]; simpl; congruence. Qed.
+
+Lemma dedup_by_map {A B} (g : A -> B) (eqv : A -> A -> bool) (eqv' : B -> B -> bool) l :
+  (forall x y, eqv' (g x) (g y) = eqv x y) ->
+  dedup_by eqv' (map g l) = map g (dedup_by eqv l).
+Proof.
+  intros H. induction l as [|x l IH]; simpl; auto.
+  rewrite existsb_map. rewrite (existsb_ext' _ (eqv x)) by (intros; apply H).
+  destruct (existsb (eqv x) l); simpl; congruence.
+Qed.
+
+Section RenameCount.
+Variable f : str -> str.
+Hypothesis f_inj : forall x y, f x = f y -> x = y.
+
+Lemma ssb_rename X S S' : ssb (map f X) (map f S) (map f S') = ssb X S S'.
+Proof. apply eq_true_iff_eq. rewrite !ssb_spec. apply same_split_rename; auto. Qed.
+
+Lemma only_in_rename X A B :
+  only_in (map f X) (map (map f) A) (map (map f) B) = map (map f) (only_in X A B).
+Proof.
+  unfold only_in. rewrite filter_map_comm.
+  rewrite (filter_ext _ (fun S => negb (existsb (ssb X S) B))).
+  - apply dedup_by_map. intros; apply ssb_rename.
+  - intros S. rewrite existsb_map. f_equal. apply existsb_ext'. intros S'. apply ssb_rename.
+Qed.
+
+Lemma count_only_rename X A B :
+  count_only (map f X) (map (map f) A) (map (map f) B) = count_only X A B.
+Proof. unfold count_only. rewrite only_in_rename. apply map_length. Qed.
+
+End RenameCount.
+
+Lemma same_set_transfer {A} (c d : A -> bits) (l1 l2 : list A) :
+  (forall x y, d x = d y <-> c x = c y) ->
+  (forall b, In b (map c l1) <-> In b (map c l2)) -> (forall b, In b (map d l1) <-> In b (map d l2)).
+Proof.
+  intros H Hc b. rewrite !in_map_iff. split; intros (x & <- & Hx).
+  - assert (Hin : In (c x) (map c l2)) by (apply Hc; apply in_map; auto).
+    apply in_map_iff in Hin as (y & E & Hy). exists y. split; auto. apply H. auto.
+  - assert (Hin : In (c x) (map c l1)) by (apply Hc; apply in_map; auto).
+    apply in_map_iff in Hin as (y & E & Hy). exists y. split; auto. apply H. auto.
+Qed.
+
+Section Rename.
+Variable f : str -> str.
+Hypothesis f_inj : forall x y, f x = f y -> x = y.
+
+(* one renamed tree *)
+Section RenOne.
+Variables (t t' : arena) (root root' : nat) (r : rtree).
+Hypothesis G : Good t root r.
+Hypothesis G' : Good t' root' r.
+Hypothesis Hlab : forall i, In i (rleaves r) -> lab t' i = f (lab t i).
+
+Lemma ren_names : map (lab t') (rleaves r) = map f (map (lab t) (rleaves r)).
+Proof. rewrite map_map. apply map_ext_in. auto. Qed.
+
+Lemma ren_leaf_idx : Permutation (leaf_idx t') (map f (leaf_idx t)).
+Proof.
+  eapply Permutation_trans; [apply (leaf_idx_perm t' root' r G')|]. rewrite ren_names.
+  apply Permutation_map, Permutation_sym, (leaf_idx_perm t root r G).
+Qed.
+
+Lemma ren_rsplits : rsplits (lab t') r = map (map f) (rsplits (lab t) r).
+Proof. rewrite (rsplits_ext (lab t') (fun i => f (lab t i)) r Hlab). apply rsplits_rename. Qed.
+
+Lemma ren_clade s : In s (subtrees r) -> clade (lab t') s = map f (clade (lab t) s).
+Proof.
+  intros Hs. unfold clade. rewrite map_map. apply map_ext_in. intros i Hi. apply Hlab.
+  eapply subtrees_leaves_incl; eauto.
+Qed.
+
+Lemma ren_canon S S' :
+  canon (clade_bits (leaf_idx t') (map f S)) = canon (clade_bits (leaf_idx t') (map f S')) <->
+  canon (clade_bits (leaf_idx t) S) = canon (clade_bits (leaf_idx t) S').
+Proof.
+  rewrite (partitions_same_split t root r G), (partitions_same_split t' root' r G'), ren_names.
+  apply same_split_rename; auto.
+Qed.
+
+Lemma ren_root_bits :
+  root_bits t' r = map (fun S => canon (clade_bits (leaf_idx t') (map f S))) (map (clade (lab t)) (rch r)) /\
+  root_bits t r = map (fun S => canon (clade_bits (leaf_idx t) S)) (map (clade (lab t)) (rch r)).
+Proof.
+  unfold root_bits. rewrite !map_map. split; [|reflexivity]. apply map_ext_in. intros s Hs.
+  unfold part_of. rewrite ren_clade; auto.
+  apply subtrees_cases. right. unfold proper_subtrees. apply in_flat_map. exists s. split; auto. apply subtrees_self.
+Qed.
+
+End RenOne.
+
+Variables (t1 t1' t2 t2' : arena) (root1 root1' root2 root2' : nat) (r1 r2 : rtree).
+Hypothesis G1 : Good t1 root1 r1.
+Hypothesis G1' : Good t1' root1' r1.
+Hypothesis G2 : Good t2 root2 r2.
+Hypothesis G2' : Good t2' root2' r2.
+Hypothesis Hlab1 : forall i, In i (rleaves r1) -> lab t1' i = f (lab t1 i).
+Hypothesis Hlab2 : forall i, In i (rleaves r2) -> lab t2' i = f (lab t2 i).
+
+Lemma ren_same_index : leaf_idx t1 = leaf_idx t2 -> leaf_idx t1' = leaf_idx t2'.
+Proof.
+  intros E. apply SS_perm_unique; auto using leaf_idx_sorted.
+  eapply Permutation_trans; [apply (ren_leaf_idx t1 t1' root1 root1' r1 G1 G1' Hlab1)|].
+  rewrite E. apply Permutation_sym, (ren_leaf_idx t2 t2' root2 root2' r2 G2 G2' Hlab2).
+Qed.
+
+Lemma ren_same_index_inv : leaf_idx t1' = leaf_idx t2' -> leaf_idx t1 = leaf_idx t2.
+Proof.
+  intros E. apply SS_perm_unique; auto using leaf_idx_sorted.
+  pose proof (ren_leaf_idx t1 t1' root1 root1' r1 G1 G1' Hlab1) as P1.
+  pose proof (ren_leaf_idx t2 t2' root2 root2' r2 G2 G2' Hlab2) as P2.
+  rewrite E in P1.
+  assert (P : Permutation (map f (leaf_idx t1)) (map f (leaf_idx t2))).
+  { eapply Permutation_trans; [apply Permutation_sym, P1|apply P2]. }
+  apply Permutation_map_inv in P as (l3 & E3 & P3).
+  assert (E4 : leaf_idx t1 = l3).
+  { clear -E3 f_inj. revert l3 E3. induction (leaf_idx t1) as [|x l IH]; intros [|y l3] E3; simpl in *; try discriminate; auto.
+    injection E3 as Hxy Hl. f_equal; auto. }
+  rewrite E4. apply Permutation_sym, P3.
+Qed.
+
+Theorem rf_value_rename :
+  leaf_idx t1 = leaf_idx t2 -> rf_value t1' t2' r1 r2 = rf_value t1 t2 r1 r2.
+Proof.
+  intros E. pose proof (ren_same_index E) as E'.
+  assert (Hk : rf_split (part_keys t1' r1) (part_keys t2' r2) = rf_split (part_keys t1 r1) (part_keys t2 r2)).
+  { rewrite (rf_split_spec t1' t2' root1' root2' r1 r2 G1' G2' E'), (rf_split_spec t1 t2 root1 root2 r1 r2 G1 G2 E).
+    rewrite (ren_names t1 t1' r1 Hlab1), (ren_rsplits t1 t1' r1 Hlab1), (ren_rsplits t2 t2' r2 Hlab2).
+    rewrite !count_only_rename by auto. reflexivity. }
+  unfold rf_value, rf_corr. rewrite Hk. f_equal.
+  replace (same_root_bits (root_bits t1' r1) (root_bits t2' r2))
+    with (same_root_bits (root_bits t1 r1) (root_bits t2 r2)); [reflexivity|].
+  apply eq_true_iff_eq. rewrite !same_root_bits_spec.
+  destruct (ren_root_bits t1 t1' r1 Hlab1) as [-> ->]. destruct (ren_root_bits t2 t2' r2 Hlab2) as [-> ->].
+  rewrite <- E, <- E'. split; apply same_set_transfer; intros S S'.
+  - apply (ren_canon t1 t1' root1 root1' r1 G1 G1' Hlab1).
+  - symmetry. apply (ren_canon t1 t1' root1 root1' r1 G1 G1' Hlab1).
+Qed.
+
+(* the outcome of robinson_foulds (value or rejection) is the same before and after the renaming *)
+Theorem rf_rename :
+  omap_out (fun x => fst (fst x)) (robinson_foulds O (tree_of t1') (tree_of t2')) =
+  omap_out (fun x => fst (fst x)) (robinson_foulds O (tree_of t1) (tree_of t2)).
+Proof.
+  rewrite (rf_unfold t1' t2' root1' root2' r1 r2 G1' G2'), (rf_unfold t1 t2 root1 root2 r1 r2 G1 G2).
+  destruct (list_eqb str_eqb (leaf_idx t1) (leaf_idx t2)) eqn:E.
+  - apply list_eqb_str_iff in E. rewrite (proj2 (list_eqb_str_iff _ _) (ren_same_index E)). cbn.
+    rewrite (rf_value_rename E). reflexivity.
+  - replace (list_eqb str_eqb (leaf_idx t1') (leaf_idx t2')) with false; [reflexivity|].
+    symmetry. apply not_true_iff_false. intros E'. apply list_eqb_str_iff, ren_same_index_inv in E'.
+    rewrite (proj2 (list_eqb_str_iff _ _) E') in E. discriminate.
+Qed.
+
+End Rename.
+
+
+(* ================================================================================================ *)
+(* K. a common rescaling of both trees scales the weighted distances                                 *)
+(* ================================================================================================ *)
+Section Scale.
+Variable c : L.
+Hypothesis distr_c : forall a b, lmul O (ladd O a b) c = ladd O (lmul O a c) (lmul O b c).
+
+Notation resc := (rescale_node O c).
+
+Lemma nth_error_resc (t : arena) i :
+  nth_error (rescale O t c) i = option_map resc (nth_error t i).
+Proof. unfold rescale. apply nth_error_map. Qed.
+
+Lemma Rep_resc (t : arena) : forall r p d i, Rep t p d i r -> Rep (rescale O t c) p d i r.
+Proof.
+  induction r as [j cs IH] using rtree_ind'. intros p d i HR.
+  destruct (Rep_inv _ _ _ _ _ HR) as (n & cs' & Heq & Hn & Hdel & Hid & Hp & Hd & HF & He1 & He2).
+  injection Heq as -> ->.
+  apply Rep_node with (n := resc n); simpl; auto.
+  - rewrite nth_error_resc, Hn. reflexivity.
+  - eapply Forall2_impl_In; [|eassumption]. simpl. intros a b _ Hb HRb.
+    rewrite Forall_forall in IH. eapply IH; eauto.
+  - intros ch nc Hc Hnc. rewrite nth_error_resc in Hnc.
+    destruct (nth_error t ch) as [nc0|] eqn:E; simpl in Hnc; [|discriminate].
+    injection Hnc as <-. simpl. rewrite (edge_get_map (fun e => lmul O e c)). f_equal. eauto.
+  - intros ch Hc. rewrite (edge_get_map (fun e => lmul O e c)) in Hc. apply He2.
+    destruct (edge_get (nedges n) ch); simpl in *; congruence.
+Qed.
+
+Lemma live_resc (t : arena) i : live (rescale O t c) i <-> live t i.
+Proof.
+  unfold live. split.
+  - intros (n & Hn & Hd). rewrite nth_error_resc in Hn.
+    destruct (nth_error t i) as [n0|]; simpl in Hn; [|discriminate]. injection Hn as <-. eauto.
+  - intros (n & Hn & Hd). exists (resc n). rewrite nth_error_resc, Hn. auto.
+Qed.
+
+Lemma lab_resc (t : arena) i : lab (rescale O t c) i = lab t i.
+Proof. unfold lab, lname. rewrite nth_error_resc. destruct (nth_error t i); reflexivity. Qed.
+
+Lemma get_leaves_resc (t : arena) : get_leaves (rescale O t c) = get_leaves t.
+Proof.
+  unfold get_leaves, rescale. induction t as [|n t IH]; simpl; auto.
+  change (is_tip (resc n)) with (is_tip n). destruct (negb (ndeleted n) && is_tip n); simpl; congruence.
+Qed.
+
+Lemma leaf_idx_resc (t : arena) : leaf_idx (rescale O t c) = leaf_idx t.
+Proof. unfold leaf_idx. rewrite get_leaves_resc. f_equal. apply map_ext. apply lab_resc. Qed.
+
+Lemma Good_resc t root r : Good t root r -> Good (rescale O t c) root r.
+Proof.
+  intros G. constructor.
+  - apply Rep_resc, (g_rep _ _ _ G).
+  - apply (g_nd _ _ _ G).
+  - intros i Hi. apply (g_live _ _ _ G), live_resc, Hi.
+  - intros i Hi. pose proof (g_named _ _ _ G i Hi) as H. unfold lname in *. rewrite nth_error_resc.
+    destruct (nth_error t i); auto.
+  - rewrite (map_ext _ _ (lab_resc t)). apply (g_uniq _ _ _ G).
+Qed.
+
+Lemma part_of_resc (t : arena) s : part_of (rescale O t c) s = part_of t s.
+Proof. unfold part_of, clade. rewrite leaf_idx_resc, (map_ext _ _ (lab_resc t)). reflexivity. Qed.
+
+Lemma pb_resc (t : arena) r n : pb (rescale O t c) r (resc n) = pb t r n.
+Proof. unfold pb. apply part_of_resc. Qed.
+
+Lemma cands_resc (t : arena) : cands (rescale O t c) = map resc (cands t).
+Proof. unfold cands, rescale. rewrite filter_map_comm. reflexivity. Qed.
+
+Definition scale_pe (e : bits * (nat * option L)) : bits * (nat * option L) :=
+  (fst e, (fst (snd e), option_map (fun v => lmul O v c) (snd (snd e)))).
+Definition scale_le (e : bits * (nat * L)) : bits * (nat * L) :=
+  (fst e, (fst (snd e), lmul O (snd (snd e)) c)).
+
+Lemma pmap_get_scale (m : pmap) k :
+  pmap_get (map scale_pe m) k =
+  option_map (fun v => (fst v, option_map (fun x => lmul O x c) (snd v))) (pmap_get m k).
+Proof.
+  induction m as [|[k0 [d ol]] m IH]; [reflexivity|]. simpl. destruct (bits_eqb k k0); [reflexivity|]. apply IH.
+Qed.
+
+Lemma pmap_set_scale (m : pmap) k d ol :
+  pmap_set (map scale_pe m) k (d, option_map (fun x => lmul O x c) ol) = map scale_pe (pmap_set m k (d, ol)).
+Proof.
+  induction m as [|[k0 [d0 ol0]] m IH]; [reflexivity|]. simpl. destruct (bits_eqb k k0); [reflexivity|].
+  simpl. f_equal. apply IH.
+Qed.
+
+Lemma m_next_scale (t : arena) r (m : pmap) n :
+  m_next (rescale O t c) r O (map scale_pe m) (resc n) = map scale_pe (m_next t r O m n).
+Proof.
+  unfold m_next. rewrite pb_resc. destruct (trivial_part (pb t r n)); [reflexivity|].
+  rewrite pmap_get_scale. change (ndepth (resc n)) with (ndepth n).
+  change (npedge (resc n)) with (option_map (fun e => lmul O e c) (npedge n)).
+  rewrite <- pmap_set_scale. f_equal. f_equal.
+  destruct (npedge n) as [nl|], (pmap_get m (pb t r n)) as [[d [ol|]]|]; simpl; auto.
+  rewrite distr_c. reflexivity.
+Qed.
+
+Lemma pm_resc (t : arena) r : pm (rescale O t c) r = map scale_pe (pm t r).
+Proof.
+  unfold pm. rewrite cands_resc.
+  change (@nil (bits * (nat * option L))) with (map scale_pe []) at 1.
+  generalize (@nil (bits * (nat * option L))) as m. induction (cands t) as [|n l IH]; intros m; [reflexivity|].
+  cbn [map fold_left]. rewrite m_next_scale. apply IH.
+Qed.
+
+Lemma all_lens_scale (m : pmap) : all_lens (map scale_pe m) = all_lens m.
+Proof.
+  unfold all_lens. induction m as [|[k [d [l|]]] m IH]; simpl; auto.
+Qed.
+
+Lemma lens_of_scale (m : pmap) : lens_of (map scale_pe m) = map scale_le (lens_of m).
+Proof.
+  unfold lens_of. induction m as [|[k [d [l|]]] m IH]; simpl; auto. f_equal. apply IH.
+Qed.
+
+Lemma plen_get_scale (po : plist) k :
+  plen_get (map scale_le po) k = option_map (fun v => (fst v, lmul O (snd v) c)) (plen_get po k).
+Proof.
+  induction po as [|[k0 [d l]] po IH]; [reflexivity|]. simpl. destruct (bits_eqb k k0); [reflexivity|]. apply IH.
+Qed.
+
+Section ScaleSum.
+Variables (sq : bool) (c' : L).
+Hypothesis distr_c' : forall a b, lmul O (ladd O a b) c' = ladd O (lmul O a c') (lmul O b c').
+Hypothesis zero_c' : lmul O (l0 O) c' = l0 O.
+Hypothesis wf_scale : forall a b, wf_ sq (lsub O (lmul O a c) (lmul O b c)) = lmul O (wf_ sq (lsub O a b)) c'.
+Hypothesis wg_scale : forall a, wg_ sq (lmul O a c) = lmul O (wg_ sq a) c'.
+
+Lemma fold_ladd_scale' (l : list L) : forall a,
+  fold_left (ladd O) (map (fun x => lmul O x c') l) (lmul O a c') = lmul O (fold_left (ladd O) l a) c'.
+Proof. induction l as [|x l IH]; intros a; simpl; auto. rewrite <- distr_c'. apply IH. Qed.
+
+Theorem wrf_sum_scale (ps po : plist) :
+  wrf_sum O sq (map scale_le ps) (map scale_le po) = lmul O (wrf_sum O sq ps po) c'.
+Proof.
+  rewrite !wrf_sum_terms. rewrite <- fold_ladd_scale', zero_c'. f_equal.
+  rewrite map_app. f_equal.
+  - rewrite !map_map. apply map_ext. intros [k [d a]]. unfold term1. cbn [scale_le fst snd len_e].
+    rewrite plen_get_scale. destruct (plen_get po k) as [[d' lo]|]; cbn [option_map fst snd]; auto.
+  - rewrite filter_map_comm, !map_map.
+    rewrite (filter_ext (fun x => negb (is_some (plen_get (map scale_le ps) (fst (scale_le x)))))
+                        (fun x => negb (is_some (plen_get ps (fst x))))).
+    + apply map_ext. intros [k [d a]]. cbn [scale_le fst snd len_e]. apply wg_scale.
+    + intros [k [d a]]. cbn [scale_le fst]. rewrite plen_get_scale. destruct (plen_get ps k); reflexivity.
+Qed.
+
+(* weighted RF / KF radicand of the two rescaled trees = the original value times c' (c' = c for the
+   weighted RF with c >= 0, c' = c * c for the KF radicand); failures are the same *)
+Theorem wrf_scale t1 t2 root1 root2 r1 r2 :
+  Good t1 root1 r1 -> Good t2 root2 r2 ->
+  omap_out (fun x => fst (fst x)) (weighted_rf O sq (tree_of (rescale O t1 c)) (tree_of (rescale O t2 c))) =
+  omap_out (fun x => lmul O (fst (fst x)) c') (weighted_rf O sq (tree_of t1) (tree_of t2)).
+Proof.
+  intros G1 G2.
+  rewrite (wrf_unfold sq _ _ root1 root2 r1 r2 (Good_resc _ _ _ G1) (Good_resc _ _ _ G2)).
+  rewrite (wrf_unfold sq t1 t2 root1 root2 r1 r2 G1 G2).
+  rewrite !pm_resc, !all_lens_scale, !lens_of_scale.
+  destruct (all_lens (pm t1 r1) && all_lens (pm t2 r2)); [|reflexivity].
+  cbn. rewrite wrf_sum_scale. reflexivity.
+Qed.
+
+End ScaleSum.
+
+(* RF itself ignores the lengths *)
+Theorem rf_scale t1 t2 root1 root2 r1 r2 :
+  Good t1 root1 r1 -> Good t2 root2 r2 ->
+  omap_out (fun x => fst (fst x)) (robinson_foulds O (tree_of (rescale O t1 c)) (tree_of (rescale O t2 c))) =
+  omap_out (fun x => fst (fst x)) (robinson_foulds O (tree_of t1) (tree_of t2)).
+Proof.
+  intros G1 G2.
+  rewrite (rf_unfold _ _ root1 root2 r1 r2 (Good_resc _ _ _ G1) (Good_resc _ _ _ G2)).
+  rewrite (rf_unfold t1 t2 root1 root2 r1 r2 G1 G2). rewrite !leaf_idx_resc.
+  destruct (negb _); [reflexivity|]. cbn. f_equal.
+  unfold rf_value, rf_corr, root_bits.
+  assert (Hk : forall t r, part_keys (rescale O t c) r = part_keys t r).
+  { intros t r. unfold part_keys. rewrite cands_resc, map_map. do 2 f_equal. apply map_ext. intros n. apply pb_resc. }
+  rewrite !Hk. rewrite !(map_ext _ _ (part_of_resc _)). reflexivity.
+Qed.
+
+End Scale.
+
+
+(* ================================================================================================ *)
+(* L. weighted distances between a tree and a child-reordering of itself                             *)
+(* ================================================================================================ *)
+(* slot by slot the same node, children listed in another order *)
+Definition reord_node (n n' : node) : Prop :=
+  nid n = nid n' /\ nname n = nname n' /\ nparent n = nparent n' /\
+  Permutation (nchildren n) (nchildren n') /\ npedge n = npedge n' /\ ndeleted n = ndeleted n'.
+Definition reord_arena (t t' : arena) : Prop := Forall2 reord_node t t'.
+
+Lemma Forall2_nth_error {A B} (R : A -> B -> Prop) l l' : Forall2 R l l' ->
+  forall i, match nth_error l i, nth_error l' i with
+            | Some a, Some b => R a b
+            | None, None => True
+            | _, _ => False
+            end.
+Proof. induction 1; intros [|i]; simpl; auto. apply IHForall2. Qed.
+
+Lemma map_eq_Forall2 {A B} (g : A -> B) l : forall l', map g l = map g l' -> Forall2 (fun a b => g a = g b) l l'.
+Proof.
+  induction l as [|a l IH]; intros [|b l'] H; simpl in H; try discriminate; constructor.
+  - injection H; auto.
+  - apply IH. injection H; auto.
+Qed.
+
+Lemma flat_map_perm_pointwise {A B} (f : A -> list B) l l' :
+  Forall2 (fun a b => Permutation (f a) (f b)) l l' -> Permutation (flat_map f l) (flat_map f l').
+Proof. induction 1; simpl; auto. apply Permutation_app; auto. Qed.
+
+Lemma Forall2_map_eq {A B C} (R : A -> B -> Prop) (f : A -> C) (g : B -> C) l l' :
+  Forall2 R l l' -> (forall a b, R a b -> f a = g b) -> map f l = map g l'.
+Proof. intros HF H. induction HF; simpl; auto. f_equal; auto. Qed.
+
+Lemma is_tip_perm (n n' : node) : Permutation (nchildren n) (nchildren n') -> is_tip n = is_tip n'.
+Proof.
+  unfold is_tip. intros H. destruct (nchildren n), (nchildren n'); auto.
+  - apply Permutation_nil in H. discriminate.
+  - apply Permutation_sym, Permutation_nil in H. discriminate.
+Qed.
+
+Section Reorder.
+Variables (t t' : arena) (root root' : nat) (r r' : rtree).
+Hypothesis G : Good t root r.
+Hypothesis G' : Good t' root' r'.
+Hypothesis HRe : reord_arena t t'.
+
+Lemma reord_slot i n n' : nth_error t i = Some n -> nth_error t' i = Some n' -> reord_node n n'.
+Proof. intros H1 H2. pose proof (Forall2_nth_error _ _ _ HRe i) as H. rewrite H1, H2 in H. exact H. Qed.
+
+Lemma reord_lab i : lab t' i = lab t i.
+Proof.
+  unfold lab, lname. pose proof (Forall2_nth_error _ _ _ HRe i) as H.
+  destruct (nth_error t i) as [n|], (nth_error t' i) as [n'|]; try tauto.
+  destruct H as (_ & -> & _). reflexivity.
+Qed.
+
+Lemma reord_get_leaves : get_leaves t' = get_leaves t.
+Proof.
+  unfold get_leaves. symmetry.
+  apply (Forall2_map_eq reord_node); [|intros a b H; apply H].
+  apply Forall2_filter; auto. intros a b (_ & _ & _ & Hch & _ & Hdel).
+  rewrite Hdel, (is_tip_perm a b Hch). reflexivity.
+Qed.
+
+Lemma reord_leaf_idx : leaf_idx t' = leaf_idx t.
+Proof. unfold leaf_idx. rewrite reord_get_leaves. f_equal. apply map_ext. apply reord_lab. Qed.
+
+Lemma reord_cand n n' : reord_node n n' -> cand n = cand n'.
+Proof.
+  intros (_ & _ & Hp & Hch & _ & Hdel). unfold cand, is_root. rewrite Hdel, Hp, (is_tip_perm n n' Hch). reflexivity.
+Qed.
+
+Lemma reord_cands : Forall2 reord_node (cands t) (cands t').
+Proof. unfold cands. apply Forall2_filter; auto. apply reord_cand. Qed.
+
+(* the subtrees hanging at the same id hold the same leaves *)
+Lemma reord_leaves : forall s s' p d p' d' i,
+  Rep t p d i s -> Rep t' p' d' i s' -> Permutation (rleaves s) (rleaves s').
+Proof.
+  induction s as [j cs IH] using rtree_ind'. intros s' p d p' d' i HR HR'.
+  destruct (Rep_inv _ _ _ _ _ HR) as (n & cs0 & Heq & Hn & _ & _ & _ & _ & HF & _).
+  injection Heq as -> <-.
+  destruct (Rep_inv _ _ _ _ _ HR') as (n' & cs' & -> & Hn' & _ & _ & _ & _ & HF' & _).
+  destruct (reord_slot i n n' Hn Hn') as (_ & _ & _ & Hch & _).
+  rewrite (Forall2_Rep_rid _ _ _ _ _ HF), (Forall2_Rep_rid _ _ _ _ _ HF') in Hch.
+  destruct cs as [|c cs].
+  - apply Permutation_nil in Hch. destruct cs'; [reflexivity|discriminate].
+  - destruct cs' as [|c' cs']; [apply Permutation_sym, Permutation_nil in Hch; discriminate|].
+    rewrite !rleaves_cons.
+    apply Permutation_map_inv in Hch as (cs2 & E2 & P2).
+    eapply Permutation_trans; [|apply Permutation_flat_map, Permutation_sym, P2].
+    apply flat_map_perm_pointwise.
+    eapply Forall2_impl_In; [|apply (map_eq_Forall2 rid _ _ E2)].
+    intros a b Ha Hb Hab. cbv beta in Hab.
+    rewrite Forall_forall in IH.
+    destruct (Forall2_In_r _ _ _ _ HF Ha) as (k & _ & HRa).
+    assert (Hb' : In b (c' :: cs')) by (eapply Permutation_in; [apply Permutation_sym, P2|exact Hb]).
+    destruct (Forall2_In_r _ _ _ _ HF' Hb') as (k' & _ & HRb).
+    pose proof (Rep_rid _ _ _ _ _ HRa) as Ek. pose proof (Rep_rid _ _ _ _ _ HRb) as Ek'.
+    rewrite <- Ek in HRa. rewrite <- Ek', <- Hab in HRb.
+    eapply (IH a Ha); eauto.
+Qed.
+
+Lemma reord_pb n n' : In n t -> In n' t' -> reord_node n n' -> cand n = true -> pb t' r' n' = pb t r n.
+Proof.
+  intros Hn Hn' Hre Hc. pose proof Hre as (Hid & _).
+  assert (Hc' : cand n' = true) by (rewrite <- (reord_cand n n' Hre); auto).
+  destruct (cand_sub t root r G n Hn Hc) as (s & Hs & _ & Es).
+  destruct (cand_sub t' root' r' G' n' Hn' Hc') as (s' & Hs' & _ & Es').
+  assert (Hss : In s (subtrees r)) by (apply subtrees_cases; auto).
+  assert (Hss' : In s' (subtrees r')) by (apply subtrees_cases; auto).
+  unfold pb. rewrite <- Es, <- Es', (sub_at_spec t root r G s Hss), (sub_at_spec t' root' r' G' s' Hss').
+  destruct (Rep_subtree_any t root r G s Hss) as (p & d & HR).
+  destruct (Rep_subtree_any t' root' r' G' s' Hss') as (p' & d' & HR').
+  assert (E : rid s' = rid s) by congruence. rewrite E in HR'.
+  pose proof (reord_leaves s s' _ _ _ _ _ HR HR') as HP.
+  unfold part_of. rewrite reord_leaf_idx. f_equal. apply clade_bits_eq_iff. intros x _.
+  unfold clade. rewrite (map_ext _ _ reord_lab). split; apply Permutation_in; auto using Permutation_map, Permutation_sym.
+Qed.
+
+Lemma reord_cands_pb :
+  Forall2 (fun n n' => pb t r n = pb t' r' n' /\ npedge n = npedge n') (cands t) (cands t').
+Proof.
+  eapply Forall2_impl_In; [|apply reord_cands]. intros n n' Hn Hn' Hre. cbv beta.
+  apply filter_In in Hn as [Hn Hc]. apply filter_In in Hn' as [Hn' _].
+  split; [symmetry; apply reord_pb; auto|]. destruct Hre as (_ & _ & _ & _ & H & _). exact H.
+Qed.
+
+Lemma reord_part_keys : part_keys t' r' = part_keys t r.
+Proof.
+  unfold part_keys. do 2 f_equal. symmetry.
+  apply (Forall2_map_eq _ _ _ _ _ reord_cands_pb). intros a b [H _]. exact H.
+Qed.
+
+Lemma reord_inducing b : map (@npedge L) (inducing t' r' b) = map (@npedge L) (inducing t r b).
+Proof.
+  unfold inducing. symmetry.
+  apply (Forall2_map_eq (fun n n' => pb t r n = pb t' r' n' /\ npedge n = npedge n')); [|intros x y [_ H]; exact H].
+  apply Forall2_filter; [apply reord_cands_pb|]. intros x y [H _]. rewrite H. reflexivity.
+Qed.
+
+Theorem reord_split_len b : split_len t' r' b = split_len t r b.
+Proof. rewrite !split_len_sum, reord_inducing. reflexivity. Qed.
+
+Lemma reord_lengths_present : lengths_present t r -> lengths_present t' r'.
+Proof.
+  intros HP. refine (proj1 (all_lens_iff t' root' r' G') _). refine (proj2 (all_lens_spec t' root' r' G') _).
+  intros b Hb. rewrite reord_split_len. rewrite reord_part_keys in Hb.
+  refine (proj1 (all_lens_spec t root r G) _ b Hb). exact (proj2 (all_lens_iff t root r G) HP).
+Qed.
+
+(* RF: zero (no lengths involved; stated here for the arena-level notion of reordering) *)
+Theorem rf_reorder_arena : robinson_foulds O (tree_of t) (tree_of t') = Ok (0, TC t r, TC t' r').
+Proof.
+  apply (rf_same_sets t t' root root' r r'); auto.
+  - symmetry. apply reord_leaf_idx.
+  - intros b. rewrite reord_part_keys. tauto.
+Qed.
+
+(* weighted RF and the KF radicand: every term is f (l - l) *)
+Theorem wrf_reorder_arena sq :
+  lengths_present t r ->
+  (forall a, wf_ sq (lsub O a a) = l0 O) -> ladd O (l0 O) (l0 O) = l0 O ->
+  weighted_rf O sq (tree_of t) (tree_of t') = Ok (l0 O, TC t r, TC t' r').
+Proof.
+  intros HP Hz H0. pose proof (reord_lengths_present HP) as HP'.
+  destruct (wrf_refines t t' root root' r r' G G' HP HP' sq) as (-> & _). do 2 f_equal. f_equal.
+  pose proof (lmap_NoDup t root r G HP) as N1. pose proof (lmap_NoDup t' root' r' G' HP') as N2.
+  rewrite wrf_sum_keys by auto. rewrite (ukeys_lmap t t' root root' r r' G G' HP HP').
+  unfold union_keys. rewrite reord_part_keys.
+  rewrite (filter_all_false _ (part_keys t r)), app_nil_r
+    by (intros k Hk; apply negb_false_iff, mem_bits_In; auto).
+  assert (Hall : forall k, In k (part_keys t r) -> kterm sq (lmap t r) (lmap t' r') k = l0 O).
+  { intros k Hk. unfold kterm, lmap.
+    rewrite (gpwl_entry t r k (all_lens_present t root r G HP)), (gpwl_entry t' r' k (all_lens_present t' root' r' G' HP')).
+    rewrite reord_split_len.
+    assert (Hsl : split_len t r k <> None).
+    { exact (proj1 (all_lens_spec t root r G) (all_lens_present t root r G HP) k Hk). }
+    assert (Hd : forall tt rr, split_depth tt rr k = None -> split_len tt rr k = None).
+    { intros tt rr. unfold split_depth, split_len. destruct (pmap_get (pm tt rr) k) as [[d ol]|]; [discriminate|auto]. }
+    destruct (split_len t r k) as [l|] eqn:El; [|congruence].
+    destruct (split_depth t r k) as [d|] eqn:Ed; [|apply Hd in Ed; congruence].
+    destruct (split_depth t' r' k) as [d'|] eqn:Ed'; [apply Hz|].
+    apply Hd in Ed'. rewrite reord_split_len in Ed'. congruence. }
+  induction (part_keys t r) as [|k ks IH]; [reflexivity|].
+  cbn [map fold_left]. rewrite Hall by (simpl; auto). rewrite H0. apply IH. intros; apply Hall; simpl; auto.
+Qed.
+
+End Reorder.
+
+
+(* ================================================================================================ *)
+(* N. the inducing nodes of a split, at the level of the rose tree                                   *)
+(* ================================================================================================ *)
+Section InducingSpec.
+Variables (t : arena) (root : nat) (r : rtree).
+Hypothesis G : Good t root r.
+
+Lemma cand_live n : In n t -> cand n = true -> exists i, nth_error t i = Some n /\ nid n = i.
+Proof.
+  intros Hn Hc. apply In_nth_error in Hn as (i & Hi). exists i. split; auto.
+  apply (good_nid t root r G); auto. exists n. split; auto.
+  unfold cand in Hc. destruct (ndeleted n); [discriminate|reflexivity].
+Qed.
+
+(* the nodes whose lengths are summed for b are exactly the slots of the split nodes (Splits.split_nodes:
+   non-root internal nodes with at least two leaves on either side) whose clade gives b *)
+Theorem inducing_spec b n :
+  In n (inducing t r b) <->
+  exists s, In s (split_nodes r) /\ nth_error t (rid s) = Some n /\ part_of t s = b.
+Proof.
+  rewrite inducing_In. split.
+  - intros (Hn & Hc & Hb & Ht). destruct (cand_sub t root r G n Hn Hc) as (s & Hs & Hi & Es).
+    assert (Hss : In s (subtrees r)) by (apply subtrees_cases; auto).
+    assert (Hp : pb t r n = part_of t s) by (unfold pb; rewrite <- Es, (sub_at_spec t root r G s Hss); reflexivity).
+    exists s. split; [|split].
+    + apply in_split_nodes. split; auto. split; auto. apply (trivial_part_of t root r G s Hss). congruence.
+    + destruct (cand_live n Hn Hc) as (i & Hi' & Ei). congruence.
+    + congruence.
+  - intros (s & Hs & Hn & Hb). apply in_split_nodes in Hs as (Hs & Hi & H1 & H2).
+    assert (Hss : In s (subtrees r)) by (apply subtrees_cases; auto).
+    destruct (sub_cand t root r G s Hs Hi) as (n' & Hn' & Hc' & En').
+    destruct (cand_live n' Hn' Hc') as (i & Hi' & Ei).
+    assert (n' = n) by congruence. subst n'.
+    assert (Hp : pb t r n = part_of t s) by (unfold pb; rewrite En', (sub_at_spec t root r G s Hss); reflexivity).
+    repeat split; auto; try congruence.
+    rewrite <- Hb. apply (trivial_part_of t root r G s Hss). auto.
+Qed.
+
+(* a unary node and its only child induce the same split: every member of a unary chain contributes *)
+Lemma unary_same_split s c : rch s = [c] -> part_of t s = part_of t c.
+Proof.
+  intros H. unfold part_of, clade. destruct s as [i cs]. simpl in H. subst cs.
+  rewrite rleaves_cons. simpl. rewrite app_nil_r. reflexivity.
+Qed.
+
+(* a two-child root: the slots of both children are inducing nodes of the one root split *)
+Theorem root2_inducing a b na nb :
+  rch r = [a; b] -> In a (split_nodes r) -> In b (split_nodes r) ->
+  nth_error t (rid a) = Some na -> nth_error t (rid b) = Some nb ->
+  In na (inducing t r (part_of t a)) /\ In nb (inducing t r (part_of t a)).
+Proof.
+  intros Hch Ha Hb Hna Hnb. split; apply inducing_spec.
+  - exists a. auto.
+  - exists b. repeat split; auto. symmetry. apply (root2_same_split t root r G a b Hch).
+Qed.
+
+End InducingSpec.
+
 End RFArena.
+
+(* ================================================================================================ *)
+(* M. concrete instances: the hypotheses are satisfiable and the formulas give the computed values   *)
+(* ================================================================================================ *)
+Module RFExample.
+Import ZArith.
+Definition OZ : LenOps Z :=
+  Build_LenOps Z 0%Z 1%Z Z.add Z.sub Z.mul Z.div Z.abs Z.ltb Z.eqb Z.of_nat 1000000%Z.
+
+Definition mkz (i : nat) (nm : option str) (p : option nat) (ch : list nat) (pe : option nat)
+               (es : list (nat * nat)) (d : nat) : @node Z :=
+  mkNode i nm p ch (option_map Z.of_nat pe) None (map (fun kv => (fst kv, Z.of_nat (snd kv))) es) d false.
+Definition A : str := [65%N]. Definition B : str := [66%N]. Definition C : str := [67%N].
+Definition D : str := [68%N]. Definition E : str := [69%N].
+
+(* ((A:1,B:2):3,(C:4,(D:5,E:6):7):8); *)
+Definition t1 : @arena Z :=
+  [ mkz 0 None None [1;4] None [(1,3);(4,8)] 0;
+    mkz 1 None (Some 0) [2;3] (Some 3) [(2,1);(3,2)] 1;
+    mkz 2 (Some A) (Some 1) [] (Some 1) [] 2; mkz 3 (Some B) (Some 1) [] (Some 2) [] 2;
+    mkz 4 None (Some 0) [5;6] (Some 8) [(5,4);(6,7)] 1;
+    mkz 5 (Some C) (Some 4) [] (Some 4) [] 2;
+    mkz 6 None (Some 4) [7;8] (Some 7) [(7,5);(8,6)] 2;
+    mkz 7 (Some D) (Some 6) [] (Some 5) [] 3; mkz 8 (Some E) (Some 6) [] (Some 6) [] 3 ].
+Definition r1 : rtree := RT 0 [RT 1 [RT 2 []; RT 3 []]; RT 4 [RT 5 []; RT 6 [RT 7 []; RT 8 []]]].
+
+(* ((A:1,C:1):2,B:1,(D:1,E:1):3); *)
+Definition t2 : @arena Z :=
+  [ mkz 0 None None [1;4;5] None [(1,2);(4,1);(5,3)] 0;
+    mkz 1 None (Some 0) [2;3] (Some 2) [(2,1);(3,1)] 1;
+    mkz 2 (Some A) (Some 1) [] (Some 1) [] 2; mkz 3 (Some C) (Some 1) [] (Some 1) [] 2;
+    mkz 4 (Some B) (Some 0) [] (Some 1) [] 1;
+    mkz 5 None (Some 0) [6;7] (Some 3) [(6,1);(7,1)] 1;
+    mkz 6 (Some D) (Some 5) [] (Some 1) [] 2; mkz 7 (Some E) (Some 5) [] (Some 1) [] 2 ].
+Definition r2 : rtree := RT 0 [RT 1 [RT 2 []; RT 3 []]; RT 4 []; RT 5 [RT 6 []; RT 7 []]].
+
+(* ((A:1,C:1):2,(B:1,(D:1,E:1):3):1); *)
+Definition t3 : @arena Z :=
+  [ mkz 0 None None [1;4] None [(1,2);(4,1)] 0;
+    mkz 1 None (Some 0) [2;3] (Some 2) [(2,1);(3,1)] 1;
+    mkz 2 (Some A) (Some 1) [] (Some 1) [] 2; mkz 3 (Some C) (Some 1) [] (Some 1) [] 2;
+    mkz 4 None (Some 0) [5;6] (Some 1) [(5,1);(6,3)] 1;
+    mkz 5 (Some B) (Some 4) [] (Some 1) [] 2;
+    mkz 6 None (Some 4) [7;8] (Some 3) [(7,1);(8,1)] 2;
+    mkz 7 (Some D) (Some 6) [] (Some 1) [] 3; mkz 8 (Some E) (Some 6) [] (Some 1) [] 3 ].
+Definition r3 : rtree := RT 0 [RT 1 [RT 2 []; RT 3 []]; RT 4 [RT 5 []; RT 6 [RT 7 []; RT 8 []]]].
+
+Ltac edge_back :=
+  let c := fresh "c" in let Hc := fresh "Hc" in
+  intros c Hc; do 9 (destruct c as [|c]; [simpl in Hc |- *; solve [auto 12 | congruence]|]);
+  simpl in Hc; congruence.
+
+Ltac rep_tac :=
+  repeat (econstructor; try reflexivity;
+          try (intros c nc Hin Hn; simpl in Hin; intuition; subst c; simpl in Hn; injection Hn as <-; reflexivity);
+          try edge_back).
+
+Tactic Notation "good_tac" integer(n) :=
+  constructor;
+  [ rep_tac
+  | unfold ids; simpl; repeat constructor; simpl; intuition; try discriminate
+  | intros i (nn & Hn & Hd); unfold ids; simpl; do n (destruct i as [|i]; [tauto|]); destruct i; discriminate
+  | simpl; intros i Hi; intuition; subst; discriminate
+  | simpl; repeat constructor; simpl; intuition; try discriminate ].
+
+Lemma good1 : Good t1 0 r1.
+Proof. unfold r1. good_tac 9. Qed.
+Lemma good2 : Good t2 0 r2.
+Proof. unfold r2. good_tac 8. Qed.
+Lemma good3 : Good t3 0 r3.
+Proof. unfold r3. good_tac 9. Qed.
+
+Definition val {X Y Z'} (o : outcome (X * Y * Z')) : option X := match o with Ok (v, _, _) => Some v | _ => None end.
+
+(* the model's results ... *)
+Example rf_12 : val (robinson_foulds OZ (tree_of t1) (tree_of t2)) = Some 2.
+Proof. vm_compute. reflexivity. Qed.
+Example rf_13 : val (robinson_foulds OZ (tree_of t1) (tree_of t3)) = Some 4.
+Proof. vm_compute. reflexivity. Qed.
+Example wrf_12 : val (weighted_rf OZ false (tree_of t1) (tree_of t2)) = Some 17%Z.
+Proof. vm_compute. reflexivity. Qed.
+Example kf_12 : val (weighted_rf OZ true (tree_of t1) (tree_of t2)) = Some 141%Z.
+Proof. vm_compute. reflexivity. Qed.
+
+(* ... and the right-hand sides of the theorems *)
+Example rf_value_12 : rf_value t1 t2 r1 r2 = 2 /\ rf_split (part_keys t1 r1) (part_keys t2 r2) = 2.
+Proof. vm_compute. auto. Qed.
+Example rf_value_13 : rf_value t1 t3 r1 r3 = 4 /\ rf_split (part_keys t1 r1) (part_keys t3 r3) = 2.
+Proof. vm_compute. auto. Qed.
+Example count_12 :
+  count_only (map (lab t1) (rleaves r1)) (rsplits (lab t1) r1) (rsplits (lab t2) r2) = 1 /\
+  count_only (map (lab t1) (rleaves r1)) (rsplits (lab t2) r2) (rsplits (lab t1) r1) = 1.
+Proof. vm_compute. auto. Qed.
+(* AB|CDE is induced by both branches of the two-child root: 3 + 8 *)
+Example slen_1 : map (fun k => slen OZ t1 r1 k) (part_keys t1 r1) = [11; 7]%Z.
+Proof. vm_compute. reflexivity. Qed.
+Example sum_12 :
+  fold_left Z.add (map (fun k => Z.abs (slen OZ t1 r1 k - slen OZ t2 r2 k)) (union_keys t1 t2 r1 r2)) 0%Z = 17%Z.
+Proof. vm_compute. reflexivity. Qed.
+
+(* the theorems instantiated *)
+Example rf_12_thm : robinson_foulds OZ (tree_of t1) (tree_of t2) = Ok (2, TC OZ t1 r1, TC OZ t2 r2).
+Proof.
+  rewrite (rf_spec_unrooted OZ t1 t2 0 0 r1 r2 good1 good2); [|vm_compute; reflexivity|right; vm_compute; discriminate].
+  destruct count_12 as [-> ->]. reflexivity.
+Qed.
+
+End RFExample.
 
 (* ================================================================================================ *)
 (* assumptions of the main results                                                                  *)
@@ -1484,3 +2230,30 @@ Print Assumptions kf_refines.
 Print Assumptions wrf_sym.
 Print Assumptions wrf_missing.
 Print Assumptions wrf_self.
+Print Assumptions RFExample.rf_12_thm.
+Print Assumptions rf_same_sets.
+Print Assumptions rf_multifurcating_roots.
+Print Assumptions same_root_two.
+Print Assumptions rf_rooted.
+Print Assumptions diff_count_splits.
+Print Assumptions rf_split_spec.
+Print Assumptions only_in_spec.
+Print Assumptions only_in_unique.
+Print Assumptions rf_spec_unrooted.
+Print Assumptions rf_value_rename.
+Print Assumptions rf_rename.
+Print Assumptions rf_scale.
+Print Assumptions wrf_sum_scale.
+Print Assumptions wrf_scale.
+Print Assumptions rf_reorder_arena.
+Print Assumptions wrf_reorder_arena.
+Print Assumptions wrf_sum_any_order.
+Print Assumptions wrf_sym_missing.
+Print Assumptions wrf_total.
+Print Assumptions gpwl_fresh.
+Print Assumptions gpwl_missing.
+Print Assumptions gpwl_entry.
+Print Assumptions inducing_spec.
+Print Assumptions root2_inducing.
+Print Assumptions unary_same_split.
+Print Assumptions split_depth_last.
